@@ -43,8 +43,9 @@ def l_variants(acc, depth, rich):
 
 
 class Grammar:
-    def __init__(self, accs=("acc1",), calls=("CALL",), ifs=True, ifp=False, whiles=False, rich=False, max_depth=2, else_branch=True):
+    def __init__(self, accs=("acc1",), calls=("CALL",), ifs=True, ifp=False, whiles=False, rich=False, max_depth=2, else_branch=True, cfor=()):
         self.accs, self.calls, self.ifs, self.ifp, self.whiles, self.rich = accs, calls, ifs, ifp, whiles, rich
+        self.cfor = tuple(cfor)  # constant (lb, ub, step) triples for loops with compile-time bounds
         self.max_depth, self.else_branch = max_depth, else_branch
         self._memo = {}
 
@@ -68,6 +69,8 @@ class Grammar:
         if size >= 2 and nest >= 1:
             for body in self.seqs(size - 1, nest - 1, loop_depth + 1, nonempty=True):
                 out.append(("FOR", body))
+                for t in self.cfor:
+                    out.append(("CFOR", body, t))
             if self.whiles:
                 for body in self.seqs(size - 1, nest - 1, loop_depth, nonempty=True):
                     out.append(("WHILE", body))
@@ -115,7 +118,7 @@ def count_nodes(prog, kind):
     for s in prog:
         if s[0] == kind:
             n += 1
-        if s[0] in ("FOR", "WHILE"):
+        if s[0] in ("FOR", "WHILE", "CFOR"):
             n += count_nodes(s[1], kind)
         elif s[0] in ("IF", "IFP"):
             n += count_nodes(s[1], kind) + (count_nodes(s[2], kind) if s[2] else 0)
@@ -194,12 +197,19 @@ class Emitter:
                 out.append(f"{ind}func.call @annotated() {{accfg.effects = #accfg.effects<none>}} : () -> ()")
             elif k == "LLVMCALL":
                 out.append(f'{ind}"llvm.call"() <{{callee = @llvm_opaque, fastmathFlags = #llvm.fastmath<none>, CConv = #llvm.cconv<ccc>, op_bundle_sizes = array<i32>, operandSegmentSizes = array<i32: 0, 0>, TailCallKind = #llvm.tailcallkind<none>}}> : () -> ()')
-            elif k == "FOR":
-                j = self.nfor
-                self.nfor += 1
-                iv = f"%iv{j}"
+            elif k in ("FOR", "CFOR"):
                 ic, ix = self.fresh("ic"), self.fresh("ix")
-                out.append(f"{ind}scf.for {iv} = %lb{j} to %ub{j} step %st{j} {{")
+                if k == "FOR":
+                    j = self.nfor
+                    self.nfor += 1
+                    iv = f"%iv{j}"
+                    out.append(f"{ind}scf.for {iv} = %lb{j} to %ub{j} step %st{j} {{")
+                else:
+                    iv = self.fresh("civ")
+                    names = [self.fresh("clb"), self.fresh("cub"), self.fresh("cst")]
+                    for nm, val in zip(names, s[2]):
+                        out.append(f"{ind}{nm} = arith.constant {val} : index")
+                    out.append(f"{ind}scf.for {iv} = {names[0]} to {names[1]} step {names[2]} {{")
                 out.append(f"{ind}  {ic} = arith.index_cast {iv} : index to i32")
                 out.append(f"{ind}  {ix} = arith.addi {ic}, %x : i32")
                 self._seq(s[1], out, ind + "  ", ivs + [dict(i=ic, ix=ix, iv=iv)])
